@@ -270,7 +270,8 @@ def confirm_cross(prop, a, m, scratch):
     import importlib
     mod = importlib.import_module("checks." + prop.lower())
     run_seed = kernel.H(a.seed, prop, m["i"])
-    plan = mod.generate(run_seed, a.tier)
+    gi = getattr(mod, "generate_indexed", None)
+    plan = gi(m["i"], run_seed, a.tier) if gi else mod.generate(run_seed, a.tier)
     seeds = []
     for _, h in m["outcomes"]:
         if h not in seeds:
